@@ -15,6 +15,7 @@ from . import error
 from . import utils
 from .error import XLError
 from .utils import DEFAULT
+from .operators import text_of
 from ..helper.number import to_number
 from .._compat import string_types
 
@@ -51,7 +52,8 @@ def CONCATENATE(*args):
         return arg
 
     try:
-        return ''.join(('' if a is None else str(a)) if not isinstance(test_arg(a), string_types) else a for a in utils.iflatten(args))
+        # each item as & joins it: a blank as nothing, a whole number as its digits, text as it is
+        return ''.join(text_of(test_arg(a)) for a in utils.iflatten(args))
     except XLError as xle:
         return xle
 
@@ -62,9 +64,7 @@ def LEN(text):
         return text
     if text is None:
         return 0
-    if not isinstance(text, string_types):
-        text = str(text)
-    return len(text)
+    return len(text_of(text))
 
 
 @dispatcher.register_for('LOWER')
@@ -149,7 +149,7 @@ def TEXTJOIN(delimiter, ignore_empty, *args):
                 continue
             item = ''
         # an item that is not text joins as CONCATENATE writes it
-        items.append(item if isinstance(item, string_types) else str(item))
+        items.append(text_of(item))
     return delimiter.join(items)
 
 
